@@ -197,3 +197,12 @@ def ahb_accepts(s):
         parts += 1
         i = j
     return True if parts else None
+
+
+def ahb_must_reject(s):
+    """True if s cannot be an AHB expression of any documented form although it begins like one: it starts with a prefix operator (X/O/U in either
+    case) -- so the rest has to be ONE condition expression -- but a modal-mark letter (M, S, K in either case: never part of a condition
+    expression) follows somewhere. None otherwise (what else must be rejected is judged by the part-wise oracle)."""
+    if isinstance(s, str) and len(s) > 1 and s[0] in "XOUxou" and any(c in "MSKmsk" for c in s[1:]):
+        return True
+    return None
